@@ -119,8 +119,10 @@ def make_store_contracts(flavour):
             all_have_id = all('NodeID' in a_keys(g_attrs(inc, n)) for n in g_nodes(inc))
             if not returned(post):
                 return not all_have_id
-            if flavour == 'disjoint' and G0 is not None:
-                return And(all_have_id or True, unchanged_store(pre, post))      # documented: same id again is skipped
+            if flavour == 'disjoint' and G0 is not None and len(g_nodes(G0)) > 0:
+                # documented: an import under the id of a graph the store holds is skipped (the emptied entry a deleted graph
+                # leaves behind does not count as held -- repaired defect, C01)
+                return And(all_have_id or True, unchanged_store(pre, post))
             if not all_have_id or G1 is None:
                 return False
             old = set(g_nodes(G0)) if G0 is not None else set()
